@@ -8,7 +8,7 @@ for pid in sorted(os.listdir('/verif/seeded')):
     d='/verif/seeded/'+pid
     if not os.path.isdir(d) or (only and pid not in only): continue
     meta={"property":pid,"changes":[]}
-    for x in 'ABCD':
+    for x in 'ABCDEFGHIJKL':
         if not os.path.exists(d+'/patch%s.diff'%x): continue
         out=subprocess.run(['/verif/tools/eval_seed.sh',d,pid,'patch%s.diff'%x,'demo%s_test.go'%x],capture_output=True,text=True,env=dict(os.environ,GOVC_NO_WITNESS='1')).stdout
         line=[l for l in out.splitlines() if l.startswith(pid+' ')]
@@ -33,3 +33,13 @@ for pid in sorted(os.listdir('/verif/seeded')):
         rows.append((pid,x,ch))
         print(pid,x,ch.get("check"),flush=True)
     json.dump(meta,open(d+'/meta.json','w'),indent=1)
+
+if not only:
+    with open('/verif/seeded/INDEX.md','w') as f:
+        f.write("# Seeded changes\n\nEach change was produced by a sub-agent that saw only the property text and a scratch worktree, and was re-confirmed by\n`tools/eval_all_seeds.py` on the current tree: the unedited suite passes with it, its demonstration fails with it and passes\nwithout it. `check` = result of `./check <id>` against the change (scratch worktree, `VERIF_REPO`).\n\n")
+        f.write("| property | change | needs to manifest | confirmed (demo clean / suite with / demo with) | check | obligations reported (first 3) |\n|---|---|---|---|---|---|\n")
+        for pid,x,ch in rows:
+            needs=(ch.get("needs_to_manifest") or [""])[0][:260].replace("|","/")
+            f.write("| %s | %s%s | %s | %s / %s / %s | %s | %s |\n"%(pid,x," (ported)" if ch.get("ported_from") else "",needs,ch.get("demo_on_unchanged_tree"),ch.get("suite_with_change"),ch.get("demo_with_change"),ch.get("check"),' '.join('`%s`'%o for o in ch.get("obligations_reported",[]))))
+        nk='/verif/seeded/C14/not-kept/README.md'
+        if os.path.exists(nk): f.write("\nNot kept: C14 change B (see `C14/not-kept/README.md`).\n")
